@@ -668,8 +668,16 @@ fn placeholders(req: &Value) -> Value {
             Ok(s) => json!({"ok": s}),
             Err(e) => json!({"err": format!("{e:?}")}),
         };
-        let per: Vec<Value> = program.body_instructions().map(|i| json!({"to_quil": show(i.to_quil()), "or_debug": i.to_quil_or_debug()})).collect();
-        return json!({"before": before, "instructions": per, "program": {"to_quil": show(program.to_quil()), "or_debug": program.to_quil_or_debug()}});
+        let dbg_ok = |q: &dyn Fn(&mut String) -> Result<(), quil_rs::quil::ToQuilError>| {
+            let mut s = String::new();
+            q(&mut s).is_ok()
+        };
+        let per: Vec<Value> = program
+            .body_instructions()
+            .map(|i| json!({"to_quil": show(i.to_quil()), "or_debug": i.to_quil_or_debug(), "debug_write_ok": dbg_ok(&|s| i.write(s, true))}))
+            .collect();
+        return json!({"before": before, "instructions": per,
+                      "program": {"to_quil": show(program.to_quil()), "or_debug": program.to_quil_or_debug(), "debug_write_ok": dbg_ok(&|s| program.write(s, true))}});
     }
     if req["custom"].is_null() {
         program.resolve_placeholders();
